@@ -59,6 +59,16 @@ def _c13_wide(args):
             mask = rng.choice([(1 << w) - 1, 1 << (w - 1), rng.getrandbits(w), rng.getrandbits(w + 8), -1, -rng.getrandbits(w)])
             out.append(x_bits.observe_bitwise(fx, np, [pid], op, tx, xs, mask=mask, side=rng.choice(['left', 'right'])))
             out.append(x_bits.observe_bitwise(fx, np, [pid], op, tx, [rng.choice(xs)], mask=mask, side=rng.choice(['left', 'right']), scalar=True))
+        # N-D operands whose rows differ in magnitude (rows that fit int64 next to rows that do not)
+        small = [min(hi, max(lo, c)) for c in (0, 1, 5, rng.randint(0, 100), -1 if tx[0] else 2, rng.randint(0, 1 << 20))]
+        mixed = small + xs[:6]
+        if rng.random() < 0.5:
+            rng.shuffle(mixed)
+        shp = rng.choice([(2, 6), (6, 2), (3, 4), (2, 2, 3), (1, 12)])
+        out.append(x_bits.observe_bitwise(fx, np, [pid], 'not', tx, mixed, shape=shp))
+        op = rng.choice(['and', 'or', 'xor'])
+        out.append(x_bits.observe_bitwise(fx, np, [pid], op, tx, mixed, mask=rng.choice([(1 << w) - 1, 1 << (w - 1), rng.getrandbits(w), 15]), side=rng.choice(['left', 'right']), shape=shp))
+        out.append(x_bits.observe_bitwise(fx, np, [pid], op, tx, mixed, ty=ty, cys=rng.choice(ys), shape=shp, hist=rng.choice([None, 'inplace', 'view'])))
         out.append(x_bits.observe_mismatch(fx, np, [pid], rng.choice(['and', 'or', 'xor']), tx, (ty[0], w + rng.choice([-1, 1, 32]), 0)))
     return [o for o in out if o is not None]
 
